@@ -340,3 +340,6 @@ def run(ctx):
     r2_store_routes(ctx)
     r3_integer_constructors(ctx)
     r4_cast_table(ctx, T)
+    from . import c04
+    c04.r4_allocation(ctx, "C06.R5")
+    c04.r8_casting_emitter(ctx, "C06.R6")
